@@ -237,6 +237,16 @@ pub fn gen_terms(rng: &mut Rng, kind: Terms, n: usize) -> Vec<TermDef> {
                 mk("type", Quote::Raw), mk("[+][+]", Quote::Legacy), mk("-", Quote::Raw), mk("\\-", Quote::Regex), mk("::", Quote::Raw), mk(";", Quote::Raw),
                 mk("Error", Quote::Raw), mk("EndOfInput", Quote::Raw), mk("Newline", Quote::Raw), mk("[a-z]+", Quote::Regex), mk("[a-z]*", Quote::Regex),
             ];
+            if rng.chance(1, 3) {
+                // one family of texts that all want the same generated name, numbered variants in
+                // any order (A1 before A0 before A ...)
+                let fam: &[&str] = *rng.pick(&[
+                    &["A", "a", "A0", "A1", "A2", "a0", "a1", "_a", "A_", "a_0"][..],
+                    &["Plus", "plus", "PLUS", "Plus0", "Plus1", "plus0", "+", "plus_0", "Plus2"][..],
+                    &["if", "If", "IF", "If0", "if0", "If1", "r#if"][..],
+                ]);
+                pool = fam.iter().map(|t| mk(t, Quote::Raw)).collect();
+            }
             rng.shuffle(&mut pool);
             let mut out: Vec<TermDef> = vec![];
             for t in pool {
